@@ -78,7 +78,8 @@ def run(ctx):
         for bb, t in rd.calls():
             if (t.get('callee') or '') in ('core::cmp::PartialEq::ne', 'core::cmp::PartialEq::eq'):
                 a0, a1 = origin(rd, t['args'][0]), origin(rd, t['args'][1])
-                if any(c is f4[0][1] for c in a0.calls + a1.calls) and any(a[0] == 'const' and ('HEADER_CONST' in str(a[1]) or '4f626a01' in str(a[1])) for a in a0.atoms | a1.atoms):
+                if any(c is f4[0][1] for c in a0.calls + a1.calls) and any(a[0] == 'const' and ('HEADER_CONST' in str(a[1]) or '4f626a01' in str(a[1])) for a in a0.atoms | a1.atoms) \
+                        and compares_whole_arrays(rd, t, 4):
                     # result switched on; the "different" edge errs
                     sw = t.get('target')
                     while sw is not None and rd.term(sw)['k'] == 'goto':
@@ -271,8 +272,8 @@ def framing(ctx, bw, rd):
     if ok:
         o1 = origin(fb, ev[0][1]['args'][0]); o2 = origin(fb, ev[1][1]['args'][0])
         long1 = ev[0][1]['substs'][0] == 'i64' and ev[1][1]['substs'][0] == 'i64' if ev[0][1].get('substs') else False
-        c1 = 'n_elements_in_block' in o1.fields and not o1.has_arith()
-        c2 = any(cname(c).endswith('WriterInner::<\'c, \'s>::compressed_block') for c in o2.calls) and 'len' in o2.flags and not o2.has_arith()
+        c1 = 'n_elements_in_block' in o1.fields and not o1.has_arith() and not narrowing_casts(o1)
+        c2 = any(cname(c).endswith('WriterInner::<\'c, \'s>::compressed_block') for c in o2.calls) and 'len' in o2.flags and not o2.has_arith() and not narrowing_casts(o2)
         # second varint goes right after the first one in the header buffer
         d2 = origin(fb, ev[1][1]['args'][1])
         after = False
@@ -395,9 +396,9 @@ def framing(ctx, bw, rd):
         for bb, t in nx.calls():
             if (t.get('callee') or '') in ('core::cmp::PartialEq::ne', 'core::cmp::PartialEq::eq'):
                 a0, a1 = origin(nx, t['args'][0]), origin(nx, t['args'][1])
-                if any(x is f16[0][1] for x in a0.calls + a1.calls) and ('sync_marker' in a0.fields or 'sync_marker' in a1.fields):
+                if any(x is f16[0][1] for x in a0.calls + a1.calls) and ('sync_marker' in a0.fields or 'sync_marker' in a1.fields) and compares_whole_arrays(nx, t, 16):
                     ok = True
-    ctx.ob('FRAMING', 'reader/sync-compared', ok, short_loc(nx.span), 'trailing 16 bytes compared with the header\'s sync marker: %s' % ok)
+    ctx.ob('FRAMING', 'reader/sync-compared', ok, short_loc(nx.span), 'all 16 trailing bytes compared with the header\'s sync marker: %s' % ok)
 
 
 # rejection sites of the container reader (all features): reviewed once, each is a spec violation of the input
